@@ -120,8 +120,8 @@ def reference(text):
                     sq_len += 1
             elif c == q:
                 emit(c, ln)
-                if mode == "SQ" and sq_len != 1:
-                    return None              # empty or multi-character constant: diagnosed by gcc
+                if mode == "SQ" and sq_len < 1:
+                    return None              # '' is not a token; a multi-character constant ('ab', '/*') is a valid one
                 mode = "N"
             else:
                 emit(c, ln)
